@@ -509,7 +509,7 @@ ASSUMPTIONS = [
 EXPLANATION = "Whole-view contract of _extend / extend on the real ast classes, all presence patterns and file orders."
 MANIFEST = {
     "category": "proof",
-    "text": "Class._extend / Tree.extend are executed with the real pymoca.ast classes for every presence pattern of a two-level name space (package real / placeholder / absent on either side, models and a nested package on either side): the resulting tree's abstract view equals the spec function merge(view(self), view(other)), the own content of a class present on both sides is that of the non-placeholder side, and every class's parent is its container. Three-file splits are merged in all six orders and give the same view; file_to_tree's placeholders are verified to be empty packages. The two file loops (api._compile_model over os.walk of the model and library folders, tools.compiler.parse_all / list_modelica_files over files and directory trees) parse every *.mo file exactly once, in either listing order, and fold Tree.extend over all parsed files into one library. A bounded replay flattens real split libraries in every file order.",
+    "text": "Class._extend / Tree.extend are executed with the real pymoca.ast classes for every presence pattern of a two-level name space (package real / placeholder / absent on either side, models and a nested package on either side): the resulting tree's abstract view equals the spec function merge(view(self), view(other)), the own content of a class present on both sides is that of the non-placeholder side, and every class's parent is its container. Three-file splits are merged in all six orders and give the same view; file_to_tree's placeholders are verified to be empty packages. The two file loops (api._compile_model over os.walk of the model and library folders, tools.compiler.parse_all / list_modelica_files over files and directory trees) parse every *.mo file exactly once, in either listing order, and fold Tree.extend over all parsed files into one library. A bounded replay flattens real split libraries in every file order. The content fields are discovered from the real Class constructor: every dict- or list-valued field has to survive the merge.",
     "note": "Name space and splits enumerated (exhaustive within them), contents opaque; one real definition per class; equality of flattened models from equal trees rests on C05.",
     "technique": "contract-based deductive verification: whole-view postcondition against a spec merge function, real ast classes executed symbolically over all presence patterns and orders",
 }
